@@ -48,6 +48,9 @@ type Run struct {
 	deadlineHit bool
 	ShardI      int
 	ShardN      int // 0 = not a shard child
+	// ShardFail, if set, is asked what to do when a shard child exits abnormally
+	// (code under test may call log.Fatal); true = handled, carry on without its partial result
+	ShardFail func(i int, err error) bool
 }
 
 // Partial is what a shard child hands to its parent.
@@ -147,6 +150,7 @@ func (r *Run) RunShards(n int) []json.RawMessage {
 		err error
 	}
 	ch := make(chan res, n)
+	failed := map[int]bool{}
 	for i := 0; i < n; i++ {
 		i := i
 		go func() {
@@ -160,11 +164,19 @@ func (r *Run) RunShards(n int) []json.RawMessage {
 	for k := 0; k < n; k++ {
 		x := <-ch
 		if x.err != nil {
+			if r.ShardFail != nil && r.ShardFail(x.i, x.err) {
+				failed[x.i] = true
+				continue
+			}
 			HarnessError("shard %d failed: %v", x.i, x.err)
 		}
 	}
 	var out []json.RawMessage
 	for i := 0; i < n; i++ {
+		if failed[i] {
+			r.deadlineHit = true // its part of the space was not completed
+			continue
+		}
 		b, err := os.ReadFile(fmt.Sprintf("%s/partial-%s-%d.json", dir, r.ID, i))
 		if err != nil {
 			HarnessError("shard %d left no partial result: %v", i, err)
